@@ -1,0 +1,90 @@
+//! Verification hooks, compiled only with the cargo feature `verif`.
+//!
+//! The hooks give an external deterministic simulator a seam at places where
+//! the code has none: points at which a task may be descheduled, points at
+//! which a thread may be descheduled, and plain events. With no callbacks
+//! installed every hook is a no-op; with the feature off none of this exists.
+//!
+//! The hooks never read a clock, never draw randomness and never change any
+//! data of the crate.
+
+use std::{
+    future::Future,
+    pin::Pin,
+    sync::OnceLock,
+    task::{Context, Poll},
+};
+
+/// What kind of scheduling point a task-level hook is.
+#[derive(Debug, Clone, Copy, PartialEq, Eq, Hash)]
+pub enum PointKind {
+    /// Between two statements with no `.await` in the original code; a yield
+    /// here models the worker thread being descheduled.
+    Preempt,
+
+    /// Directly next to an existing `.await` that may be pending in some
+    /// execution; the only injected points at which a future may be dropped.
+    Await,
+}
+
+/// The callbacks a simulator installs.
+#[derive(Debug, Clone, Copy)]
+pub struct Hooks {
+    /// Returns how many times the current task re-queues itself at `site`.
+    pub task_decide: fn(site: &'static str, kind: PointKind) -> u32,
+
+    /// Returns when the calling thread may continue past `site`.
+    pub thread_point: fn(site: &'static str),
+
+    /// A plain event with two numeric arguments.
+    pub event: fn(site: &'static str, a: u64, b: u64),
+}
+
+static HOOKS: OnceLock<Hooks> = OnceLock::new();
+
+/// Installs the callbacks for this process. Returns `false` if callbacks
+/// were already installed (the first installation stays in effect).
+pub fn install(hooks: Hooks) -> bool { HOOKS.set(hooks).is_ok() }
+
+struct YieldOnce(bool);
+
+impl Future for YieldOnce {
+    type Output = ();
+
+    fn poll(mut self: Pin<&mut Self>, cx: &mut Context<'_>) -> Poll<()> {
+        if self.0 {
+            Poll::Ready(())
+        } else {
+            self.0 = true;
+            cx.waker().wake_by_ref();
+            Poll::Pending
+        }
+    }
+}
+
+/// A task-level scheduling point.
+pub async fn task_point(site: &'static str, kind: PointKind) {
+    let Some(hooks) = HOOKS.get() else {
+        return;
+    };
+
+    let count = (hooks.task_decide)(site, kind);
+
+    for _ in 0..count {
+        YieldOnce(false).await;
+    }
+}
+
+/// A thread-level scheduling point.
+pub fn thread_point(site: &'static str) {
+    if let Some(hooks) = HOOKS.get() {
+        (hooks.thread_point)(site);
+    }
+}
+
+/// A plain event.
+pub fn event(site: &'static str, a: u64, b: u64) {
+    if let Some(hooks) = HOOKS.get() {
+        (hooks.event)(site, a, b);
+    }
+}
